@@ -46,6 +46,12 @@ def gen_cases(tier, seed):
         chunk = min(65536, md // 2)
         for total in range(2 * chunk - 70, 2 * chunk + 12):
             yield {"kind": "file", "impl": ("sync", "async")[total % 2], "maxdata": md, "size": total, "seed": "%d:sw%d-%d" % (seed, md, total), "sweep": True}
+    # the fill level also depends on the length of the SEND spec: sweep the device-path length at sizes around the exact fit
+    for md in ((4096,) if tier == "quick" else (4096, 4097, 8192)):
+        chunk = min(65536, md // 2)
+        for plen in (range(2, 40, 3) if tier == "quick" else range(2, 120)):
+            for total in range(2 * chunk - 34 - plen, 2 * chunk - 18 - plen):
+                yield {"kind": "file", "impl": ("sync", "async")[(total + plen) % 2], "maxdata": md, "size": total, "seed": "%d:pl%d-%d-%d" % (seed, md, plen, total), "sweep": True, "plen": plen}
     n = 1500 if tier == "quick" else 12000
     for j in range(n):
         md = rng.choice(mds)
@@ -82,7 +88,7 @@ def run_case(case):
             r = scen.Runner(sess, {"dims": dims, "steps": []})
             r.tmp = tmp
             try:
-                plen = rng.choice([1, 50, 50, 1024]) if not case.get("sweep") else rng.choice([2, 3, 9])
+                plen = rng.choice([1, 50, 50, 1024]) if not case.get("sweep") else (case.get("plen") or rng.choice([2, 3, 9]))
                 path = "/" + "".join(rng.choice("abcdefghijklmnopqrstuvwxyz0123456789_-./é") for _ in range(plen - 1))
                 path = path.rstrip(",") or "/x"
                 step = {"op": "push", "path": path, "size": case["size"], "seed": case["seed"], "src": rng.choice(["bytesio", "file"]),
